@@ -164,12 +164,13 @@ def run(ctx):
     st = [e for e in s3.stores("external") if e.base == SELF]
     if not st:
         raise AnalysisError("BigEdge.__post_init__ no longer stores self.external - re-bind the anchor")
-    for e in st:
-        copies += 1
-        code = abstract_bigedge(e.value)
-        for c in e.conds():
-            raise AnalysisError(f"{ctx.where(f3, e.node)}: self.external is stored conditionally - unsupported shape")
-        decide_formula(ctx, f"{f3.qualname} / SIB / external flag", ctx.where(f3, e.node), code, T.b_not(spec), "self.external")
+    # the flag as the constructor leaves it: the merged value of all its (possibly guarded) stores - `x = True if c else False`,
+    # `if c: x = True else: x = False` and `x = c` are the same value
+    copies += 1
+    final = s3.heap.get(T.attr(SELF, "external"))
+    if final is None:
+        raise AnalysisError("BigEdge.__post_init__: final value of self.external not found - re-bind the anchor")
+    decide_formula(ctx, f"{f3.qualname} / SIB / external flag", ctx.where(f3, st[-1].node), abstract_bigedge(final), T.b_not(spec), "self.external")
 
     # ---------------- the two cells an interface separates
     ctx.clause("internal interfaces separate exactly two cells: own_cells comes from a vertex that only the two cells share")
